@@ -61,6 +61,17 @@ class FixMixed(_TrapMixin, ValueError):
         ValueError.__init__(self, f"{code}: {msg} {extra}")
 
 
+LOOKUP_MESSAGES = {1: "one", 2: "two", 3: "three"}
+
+
+class FixLookupInit(Exception):
+    """Constructor looks its argument up: rebuilding it from the stored args raises KeyError, not TypeError/ValueError."""
+
+    def __init__(self, code: int) -> None:
+        super().__init__(LOOKUP_MESSAGES[code])
+        self.code = code
+
+
 class FixKwOnly(Exception):
     def __init__(self, *, detail: str = "d") -> None:
         super().__init__(detail)
@@ -130,7 +141,7 @@ def install_fixture() -> None:
     sub.Exc2 = FixExc  # type: ignore[attr-defined]
     m.sub = sub  # type: ignore[attr-defined]
     sys.modules[FIX] = m
-    for cls in (FixExc, FixBaseOnly, FixCustomInit, FixKwOnly, FixMid, Outer, _TrapCls, FixEqHash, FixDcErr, FixMixed):
+    for cls in (FixExc, FixBaseOnly, FixCustomInit, FixKwOnly, FixMid, Outer, _TrapCls, FixEqHash, FixDcErr, FixMixed, FixLookupInit):
         cls.__module__ = FIX
         setattr(m, cls.__name__, cls)
     FixExc.__qualname__ = "FixExc"
@@ -156,6 +167,9 @@ def install_fixture() -> None:
             f.write("import builtins\nbuiltins._verif_lazy_loaded = True\n")
     with open(os.path.join(d, "verif_cold_pkg", "sub", "errors.py"), "w") as f:
         f.write("class ColdErr(Exception):\n    pass\n")
+    # a module that exists on the path but cannot be imported in this process (worker-only settings)
+    with open(os.path.join(d, "verif_worker_only.py"), "w") as f:
+        f.write("raise RuntimeError('this module can only be imported inside a worker')\n")
 
 
 # abstract target -> (module name, dotted type name, kind of the object it resolves to)
@@ -163,6 +177,10 @@ TARGETS: Dict[str, Any] = {
     "exc": (FIX, "Exc", "exc"), "nested_exc": (FIX, "Outer.InnerExc", "exc"), "builtin_exc": ("builtins", "ValueError", "exc"),
     "baseonly": (FIX, "FixBaseOnly", "exc"), "custominit": (FIX, "FixCustomInit", "exc_noinit"),
     "sub_exc": (FIX, "sub.Exc2", "exc"), "mixed": (FIX, "FixMixed", "exc_noinit"),
+    "unimportable": ("verif_worker_only", "ConfigError", "notloaded"), "emptymod": ("", "Weird", "notloaded"),
+    "relmod": (".plugins", "PluginError", "notloaded"),
+    "own_pkg_cls": ("taskiq", "ZeroMQBroker", "cls"), "own_pkg_func": ("taskiq", "gather", "func"),
+    "nomodule_issubclass": (None, "issubclass", "nomodule"), "nomodule_isinstance": (None, "isinstance", "nomodule"),
     "wrapped_func": (FIX, "shim", "func"), "exc_method": (FIX, "Exc.notify", "func"), "exc_inner_cls": (FIX, "Exc.Meta", "cls"),
     "partial_inst": (FIX, "part", "inst"),
     # objects that live in taskiq's own serialization module are no more trustworthy than any other non-exception
@@ -352,8 +370,10 @@ IMPORTABLE = {"builtin", "builtin2", "module", "nested", "baseonly", "eqhash", "
 
 def make_exc(kind: str, akind: str, salt: int) -> BaseException:
     cls = make_class(kind)
-    if kind == "custominit":
-        e: BaseException = cls(salt, "m")
+    if kind == "custominit" and salt % 2 == 1:
+        e: BaseException = FixLookupInit(1 + salt % 3)
+    elif kind == "custominit":
+        e = cls(salt, "m")
     elif kind == "kwonly":
         e = cls(detail="d%d" % salt)
     elif kind == "mid":
